@@ -37,6 +37,9 @@ def run(ctx):
                  "S6": "nearest neighbour = argmin of Euclidean distance; mae sums |p-q|, mse (p-q)^2, rmspe (p-q)/(p+eps); divisor 2*len(a)",
                  "S7": "Strategy tables: knees -> (K,E); expected -> (E,K); best -> shorter side iterates; worst -> longer side iterates; identical in mae/mse/rmspe"}.items():
         res.rule(k, v)
+    res.rule("S-dtype", "no score function stores a per-point error into an array that inherits the dtype of one of its arguments (integer knees / expected points would truncate it)")
+    from . import detectors as _d
+    _d.dtype_guard(rc, "S-dtype", ["evaluation"])
     _cm(rc)
     _scores(rc)
     _errors(rc)
@@ -331,6 +334,8 @@ def _errors(rc: RuleCtx):
                     return False
             return {sd for _g, sd in sides} == {"E", "K"}
         good = True
+        if all(sd == "?" for sides in row.values() for _g, sd in sides):
+            raise AnalysisError(f"evaluation.{name}: the iterated side could not be identified for any strategy - shape not recognised")
         for sname, sides in row.items():
             if not expect(sname, sides):
                 good = False
